@@ -35,7 +35,9 @@ def run_simple(ctx, prop):
         # finite flush timeouts (C02)
         for sc in ["S,3,2,0,1,2,0,0,0,1", "SS,4,1,1,1,1,3,0,0,1", "BS,2,2,2,1,1,1,0,0,1", "BB,1,2,1,2,1,2,1,0,2", "B,2,1,1,1,0,1,0,1,1", "BS,1,2,1,1,1,0,2,0,1",
                    # really slow Exports (5 ms virtual) racing Shutdown with finite timeouts (1 ms / 12 ms) on simple processors
-                   "S,3,2,0,1,9,0,0,0,1", "SS,3,2,0,2,9,1,0,0,1", "BS,2,2,1,1,9,0,0,0,1"]:
+                   "S,3,2,0,1,9,0,0,0,1", "SS,3,2,0,2,9,1,0,0,1", "BS,2,2,1,1,9,0,0,0,1",
+                   # the first exporter's Shutdown reports failure (expfail = 3): every later processor must still be shut down
+                   "BB,2,2,0,1,1,0,3,0,1", "BBS,1,2,1,2,0,3,3,0,2", "SB,2,1,0,1,0,0,3,0,1"]:
             runs.append(["explore", side, "random", n // 2, s + 5, sc])
         for sc in ["S,2,1,0,1,1,0,0,0,1", "BS,1,1,1,1,0,1,0,0,1"]:
             runs.append(["explore", side, "dfs", 10 ** 7, s, sc, 2 if thorough else 1])
